@@ -230,8 +230,8 @@ func cfaultCase(cs cfCase) *CaseSpec {
 		// the error is recorded
 		recorded := false
 		recWait := 2 * time.Second
-		if cs.class == "eof" {
-			recWait = 50 * time.Millisecond // an orderly end of stream is not an error
+		if cs.class == "eof" && cs.side == "recv" {
+			recWait = 50 * time.Millisecond // an orderly end of stream seen by the receiver is not an error
 		}
 		for dl := time.Now().Add(recWait); time.Now().Before(dl); {
 			s, _ := c.Status()
@@ -247,7 +247,7 @@ func cfaultCase(cs cfCase) *CaseSpec {
 		// AwaitConverged under its own deadline and an outer watchdog
 		await := "hang"
 		awaitLimit := 5 * time.Second // generous: the error is there already, the answer is immediate
-		if cs.class == "eof" || !reached {
+		if (cs.class == "eof" && cs.side == "recv") || !reached {
 			awaitLimit = 300 * time.Millisecond // nothing to wait for: only liveness is judged
 		}
 		within(awaitLimit+4*time.Second, func() {
@@ -415,9 +415,8 @@ func cfEnumerate(tier string) []cfCase {
 	for _, side := range []string{"send", "recv"} {
 		for k := 0; k <= maxK; k++ {
 			for ci, class := range classes {
-				if class == "eof" && side == "send" {
-					continue
-				}
+				// send/eof: Send on a stream the server has ended returns io.EOF (and Recv a clean
+				// io.EOF): requests can no longer be delivered, which is a failure of the stream
 				for ei, ending := range []string{"close", "reset"} {
 					variants := []bool{(k+ci+ei)%2 == 0}
 					if tier == "thorough" {
